@@ -513,8 +513,39 @@ func (s *scenario) peer() {
 	}
 	s.notePeer()
 	s.c.Eval(1)
+	s.answers("A", "B")
+	s.answers("B", "A")
 	for _, n := range []string{"A", "B"} {
 		s.cleanerTick(n)
+	}
+}
+
+// answers: two peered routers RUN - a request of one to the other (the keep-alive of the link is such a request) is
+// answered. Three tries of 2 s each: a router may drop a frame while all its handlers are busy.
+func (s *scenario) answers(from, to string) {
+	a, b := s.insts[from], s.insts[to]
+	if a == nil || b == nil || a.phase != "running" || b.phase != "running" {
+		return
+	}
+	for try := 0; try < 3; try++ {
+		if !s.bothLinked() {
+			return // the link went away again (the other side of a double connection): nothing to ask over
+		}
+		notify, _, err := a.in.Router().PingPong.Send(b.in.Identity().IP, true, 0)
+		if err != nil {
+			time.Sleep(50 * time.Millisecond)
+			continue
+		}
+		select {
+		case <-notify:
+			s.c.Eval(1)
+			s.macro = append(s.macro, "answered("+from+"->"+to+")")
+			return
+		case <-time.After(2 * time.Second):
+		}
+	}
+	if s.bothLinked() {
+		s.bad = append(s.bad, badThing{"peered-but-deaf", fmt.Sprintf("instance %s is linked to %s and gets no answer to its requests (3 tries, 2 s each): router workers per slot %v / %v", from, to, s.workerCounts(a), s.workerCounts(b))})
 	}
 }
 
@@ -693,6 +724,18 @@ func run(c *vf.Ctx) {
 		}(scen[i], w)
 	}
 	wg.Wait()
+	// a host with a single CPU (as far as the Go runtime is concerned): both up, peer, answer, stop
+	prevProcs := runtime.GOMAXPROCS(1)
+	for k := 0; k < 2; k++ {
+		s := &scenario{c: c, rng: rand.New(rand.NewSource(c.Seed*1000 + 900 + int64(k))), dir: stateDir, insts: map[string]*live{}, macro: []string{"one-cpu"}}
+		w := []act{{Name: "construct", Inst: "B", API: k == 1}, {Name: "construct", Inst: "A", API: false}, {Name: "startmodule", Inst: "B"}, {Name: "startmodule", Inst: "A"},
+			{Name: "peer", A: "A", B: "B"}, {Name: "stoprequest", Inst: "A"}, {Name: "stoprequest", Inst: "B"}}
+		if p, v, stack := vf.NoPanic(func() { s.run(w) }); p {
+			s.bad = append(s.bad, badThing{"driver-or-router-panic", fmt.Sprintf("%v\n%s", v, firstLines(stack, 20))})
+		}
+		scen = append(scen, s)
+	}
+	runtime.GOMAXPROCS(prevProcs)
 	c.Logf("R: %d scenarios executed", len(scen))
 
 	var events []any
